@@ -326,6 +326,7 @@ class CFG:
                         for h in classes:
                             if issubclass(h, t):
                                 narrowed.add(h)
+                narrowed = self._narrow_by_isinstance(node, hnode, narrowed)
                 prev = rr_done.get(node.id, set())
                 if narrowed - prev:
                     rr_done[node.id] = prev | narrowed
@@ -341,6 +342,38 @@ class CFG:
                     done[key] = set(fin.exc_types)
                     self.route_exc(fin.exc_tail, fin.exc_types, fin.frames)
                     changed = True
+
+    @staticmethod
+    def _narrow_by_isinstance(node, hnode, types):
+        """a bare `raise` nested in `if isinstance(<handler variable>, T):` re-raises only the T part of what the handler
+        caught (and the complement in the else branch)"""
+        var = getattr(hnode.ast, "name", None)
+        st = node.ast
+        if not var or st is None:
+            return types
+        child, par = st, getattr(st, "_parent", None)
+        while par is not None and par is not hnode.ast:
+            if isinstance(par, ast.If):
+                t, pos = par.test, True
+                while isinstance(t, ast.UnaryOp) and isinstance(t.op, ast.Not):
+                    t, pos = t.operand, not pos
+                if isinstance(t, ast.Call) and A.dotted(t.func) == "isinstance" and len(t.args) == 2 and \
+                        isinstance(t.args[0], ast.Name) and t.args[0].id == var:
+                    classes = X.get(t.args[1])
+                    in_body = any(child is b for b in par.body)
+                    if classes:
+                        if in_body == pos:
+                            out = set()
+                            for ty in types:
+                                if any(issubclass(ty, c) for c in classes):
+                                    out.add(ty)
+                                else:
+                                    out |= {c for c in classes if issubclass(c, ty)}
+                            types = out
+                        else:
+                            types = {ty for ty in types if not any(issubclass(ty, c) for c in classes)}
+            child, par = par, getattr(par, "_parent", None)
+        return types
 
     def _prune(self):
         # drop nodes unreachable from entry (e.g. unused finally copies)
